@@ -48,6 +48,10 @@ void *memcpy(void *dst, const void *src, size_t n)
 void *memmove(void *dst, const void *src, size_t n)
 {
     MM_WRITE_HOOK(dst, n);
+    /* an out-of-bounds move is reported once, here; the paths behind it are cut (symbolic out-of-bounds offsets make CBMC explode) */
+    __CPROVER_assert(__CPROVER_r_ok(src, n), "memmove source readable for n bytes");
+    __CPROVER_assert(__CPROVER_w_ok(dst, n), "memmove destination writable for n bytes");
+    __CPROVER_assume(__CPROVER_r_ok(src, n) && __CPROVER_w_ok(dst, n));
 #ifdef LEN_TIER
     if (n > MM_PRECISE) {
 	__CPROVER_assert(__CPROVER_r_ok(src, n), "memmove source readable for n bytes");
